@@ -151,17 +151,22 @@ fn run_rr(c: &RrCase) -> Value {
     }
 }
 
-fn emit_rr(out: &str, idx: usize, cases: &[RrCase]) {
+fn emit_rr(out: &str, idx: usize, cases: &[RrCase], results: &[Value]) {
     let mut v = header("RachfordRiceC05");
     v.push_str("Definition cases : list rr_case := [\n");
     let items: Vec<String> = cases
         .iter()
-        .map(|c| {
+        .zip(results)
+        .map(|(c, r)| {
             format!(
-                "  (({}, {}), {})",
+                "  ((({}, {}), {}), {})",
                 dyl(&c.z),
                 dyl(&c.k),
                 match c.b0 {
+                    Some(b) => format!("Some {}%Z", dyadic(b)),
+                    None => "None".into(),
+                },
+                match r["beta"].as_f64() {
                     Some(b) => format!("Some {}%Z", dyadic(b)),
                     None => "None".into(),
                 }
@@ -679,9 +684,10 @@ fn main() {
         all_cases.push(gen_rr_case(&mut rng));
     }
     for (ci, cs) in all_cases.chunks(chunk).enumerate() {
-        emit_rr(&out, ci, cs);
-        for c in cs {
-            rr_json.push(json!({"file": format!("rr_{ci}.v"), "z": c.z, "k": c.k, "b0": c.b0, "class": c.class, "impl": run_rr(c)}));
+        let results: Vec<Value> = cs.iter().map(run_rr).collect();
+        emit_rr(&out, ci, cs, &results);
+        for (c, r) in cs.iter().zip(results) {
+            rr_json.push(json!({"file": format!("rr_{ci}.v"), "z": c.z, "k": c.k, "b0": c.b0, "class": c.class, "impl": r}));
         }
     }
 
